@@ -509,6 +509,284 @@ def frame_probe(rng):
     return None, case, tags
 
 
+# ----------------------------------------------------------------------------- numerical edge values
+# Valid inputs at the ends of the floating-point range: huge but finite magnitudes (squares overflow, the values do not),
+# tiny / subnormal magnitudes, signed zeros, badly scaled Koopman matrices.  The lifting chains used here are SELECTIONS
+# (no lifting functions, delay coordinates, chains and split pipelines of them): lifting and retraction only copy entries,
+# so the only arithmetic on the way is theta+ = A theta + B upsilon, which the oracle does itself in float64 from coef_.
+
+EDGE_PALETTE = [0.0, -0.0, 5e-324, -5e-324, 1e-310, 2.2250738585072014e-308, -3e-300, 1e-200, 1.0, -1.0, 7e99, -1e154,
+                1.4e154, 3e180, -1e200, 2.5e250, 1e300, -1e300]
+
+
+def _edge_specs(rng, nu):
+    d = lambda: {'k': 'delay', 'dx': rng.randint(0, 2), 'du': rng.randint(0, 2) if nu else 0}
+    kind = rng.choice(['none', 'delay', 'delay', 'delay-chain', 'split', 'split'])
+    if kind == 'none':
+        return kind, []
+    if kind == 'delay':
+        return kind, [d()]
+    if kind == 'delay-chain':
+        return kind, [d(), d()]
+    a = [{'k': 'delay', 'dx': rng.randint(0, 2), 'du': 0}]
+    b = [{'k': 'delay', 'dx': 0, 'du': rng.randint(0, 2)}] if (nu and rng.random() < 0.7) else []
+    return kind, [{'k': 'split', 'a': a, 'b': b}] + ([d()] if rng.random() < 0.3 else [])
+
+
+def _edge_number(rng, rs, mode):
+    sgn = -1.0 if rng.random() < 0.5 else 1.0
+    if mode == 'huge':
+        r = rng.random()
+        if r < 0.65:
+            return sgn * 10.0 ** rng.uniform(154.5, 300)
+        if r < 0.8:
+            return sgn * 10.0 ** rng.uniform(140, 154.5)
+        return sgn * rng.uniform(0.1, 2)
+    if mode == 'tiny':
+        r = rng.random()
+        if r < 0.25:
+            return sgn * 0.0
+        if r < 0.5:
+            return sgn * 5e-324 * rng.randint(1, 1000)
+        return sgn * 10.0 ** rng.uniform(-322, -290)
+    if mode == 'palette':
+        return rng.choice(EDGE_PALETTE)
+    return sgn * rng.uniform(0.1, 2)        # 'scaled': ordinary numbers, the scales are applied per column
+
+
+def edge_value_case(rng):
+    """a fully explicit (JSON-able) case: selection lifting chain, Koopman matrix with absolute row sums <= 0.9 (so every
+    true intermediate is bounded by the largest supplied magnitude), edge-valued initial conditions / inputs"""
+    rs = np.random.RandomState(rng.randint(0, 2 ** 31 - 1))
+    nx, nu = rng.randint(1, 3), rng.choice([0, 1, 1, 2])
+    kind, ss = _edge_specs(rng, nu)
+    spec = {'k': 'pipe', 'ss': ss}
+    fe = rng.random() < 0.6
+    mloss = pipes.loss(spec)
+    fit_blocks = [(l, rs.uniform(-1, 1, (mloss + 4, nx + nu))) for l in ((0, 1) if fe else (0,))]
+    Xfit = st.ref_combine(fit_blocks, fe)
+    mode = rng.choice(['huge', 'huge', 'huge', 'tiny', 'palette', 'palette', 'scaled'])
+    call = rng.choice([None, None, True, False])
+    e = fe if call is None else call
+    labels = sorted(rng.sample(range(0, 9), rng.randint(1, 3))) if e else [0]
+    # per-column scales (mode 'scaled': states / inputs / Koopman matrix rescaled by a diagonal with exponents +-150)
+    sc = [10.0 ** rng.choice([-150, -100, -7, 0, 0, 30, 100, 150]) if mode == 'scaled' else 1.0 for _ in range(nx + nu)]
+    blocks = []
+    for l in labels:
+        n = mloss + 1 + rng.randint(2, 8)
+        emode = mode if (len(labels) == 1 or rng.random() < 0.75) else 'ordinary'
+        E = np.array([[_edge_number(rng, rs, emode) * sc[j] for j in range(nx + nu)] for _ in range(n)])
+        if emode == 'huge' and rng.random() < 0.5:
+            E[:, nx:] = rs.uniform(-1, 1, (n, nu))      # huge initial conditions, ordinary inputs
+        blocks.append((l, E))
+    X = st.ref_combine(blocks, e)
+    return {'probe': 'edge-values', 'kind': kind, 'mode': mode, 'spec': spec, 'nx': nx, 'nu': nu, 'fit_ep': fe, 'call': call,
+            'form': rng.choice([1, 2]), 'Xfit': Xfit.tolist(), 'X': X.tolist(), 'scales': sc,
+            'K_seed': rng.randint(0, 2 ** 31 - 1)}
+
+
+def _selection(M):
+    """M is a 0/1 matrix with at most one 1 per row -> index vector (-1: constant zero), else None"""
+    if not np.all((M == 0) | (M == 1)) or np.any(M.sum(axis=1) > 1):
+        return None
+    return np.array([int(np.argmax(r)) if r.any() else -1 for r in M], dtype=int)
+
+
+def _take(sel, v):
+    out = np.zeros(sel.shape[0])
+    out[sel >= 0] = v[sel[sel >= 0]]
+    return out
+
+
+def _bits_equal(a, b):
+    a, b = np.ascontiguousarray(a, dtype=float), np.ascontiguousarray(b, dtype=float)
+    return a.shape == b.shape and np.array_equal(a.view(np.int64), b.view(np.int64))
+
+
+def edge_value_check(case):
+    """(why | None, tags, status): the property clauses on an edge-valued call, expected values computed here"""
+    import logging
+    import warnings
+    nx, nu, fe, call = case['nx'], case['nu'], case['fit_ep'], case['call']
+    tags = {'probe': 'edge-values', 'mode': case['mode']}
+    spec = case['spec']
+    Xfit = np.array(case['Xfit'], dtype=float)
+    probe = pipes.fit(spec, Xfit, nu, fe)
+    pth, pup = probe.n_states_out_, probe.n_inputs_out_
+    m = probe.min_samples_
+    # the lifting structure, measured at ordinary magnitudes: which window entry each lifted coordinate copies
+    w = m * (nx + nu)
+    Ms, Mu = np.zeros((pth, w)), np.zeros((pup, w))
+    for j in range(w):
+        W = np.zeros(w); W[j] = 1.0
+        W = W.reshape(m, nx + nu)
+        lw = probe.lift(W, episode_feature=False)
+        if lw.shape != (1, pth + pup):
+            return None, tags, 'rejected:window shape'
+        Ms[:, j], Mu[:, j] = lw[-1, :pth], lw[-1, pth:]
+    Mr = np.zeros((nx, pth))
+    for j in range(pth):
+        T = np.zeros((1, pth)); T[0, j] = 1.0
+        Mr[:, j] = probe.retract_state(T, episode_feature=False)[-1]
+    Ss, Su, Sr = _selection(Ms), _selection(Mu), _selection(Mr)
+    if Ss is None or Su is None or Sr is None or np.any(Sr < 0):
+        return None, tags, 'rejected:lifting is not a selection'
+    # Koopman matrix: absolute row sums <= 0.9, rescaled by the column scales of the case (D K D^-1)
+    rs = np.random.RandomState(case['K_seed'])
+    K = rs.uniform(-1, 1, (pth, pth + pup))
+    K *= 0.9 / np.max(np.sum(np.abs(K), axis=1))
+    sc = np.array(case['scales'], dtype=float)
+    col_of = lambda sel: np.array([sc[i % (nx + nu)] if i >= 0 else 1.0 for i in sel])
+    ds, du = col_of(Ss), col_of(Su)
+    K = (ds[:, None] * K) / np.concatenate((ds, du))[None, :]
+    if not np.all(np.isfinite(K)):
+        return None, tags, 'rejected:scaled Koopman matrix overflows'
+    A, B = K[:, :pth], K[:, pth:]
+    kp = pykoop.KoopmanPipeline(
+        lifting_functions=[(f'p{j}', pipes.build(s)) for j, s in enumerate(spec['ss'])] or None,
+        regressor=pykoop.DataRegressor(coef=K.T))
+    kp.fit(Xfit, n_inputs=nu, episode_feature=fe)
+    K = np.array(kp.regressor_.coef_, dtype=float).T
+    A, B = K[:, :pth], K[:, pth:]
+    e = fe if call is None else call
+    ec = 1 if e else 0
+    X = np.array(case['X'], dtype=float)
+    eps_in = st.episodes(X, e)
+    tiny = 64 * (pth + pup) * 5e-324
+
+    def step(theta, ups):
+        """(A theta + B upsilon, elementwise bound on its rounding error scale); None if a true intermediate can overflow"""
+        with np.errstate(all='ignore'):
+            mag = np.abs(A) @ np.abs(theta) + (np.abs(B) @ np.abs(ups) if pup else 0.0)
+            nxt = A @ theta + (B @ ups if pup else 0.0)
+        if not np.all(np.isfinite(mag)) or np.max(mag, initial=0.0) > 1e305:
+            return None, None
+        return nxt, 1e-12 * mag + tiny
+
+    def window(Srows, Urows):
+        return np.hstack((Srows, Urows)).ravel()
+
+    # the expected trajectories (with and without re-lifting), iterated here from the supplied initial conditions
+    expected, expected_nr = {}, {}
+    for l, Xe in eps_in.items():
+        n = Xe.shape[0]
+        S = np.array(Xe[:, :nx]); S[m:] = 0.0
+        for k in range(m, n):
+            wv = window(S[k - m:k], Xe[k - m:k, nx:])
+            nxt, _ = step(_take(Ss, wv), _take(Su, wv))
+            if nxt is None:
+                return None, tags, 'rejected:a true intermediate leaves the floating-point range'
+            S[k] = _take(Sr, nxt)
+        expected[l] = S
+        Sn = np.array(Xe[:, :nx]); Sn[m:] = 0.0
+        wv = window(Sn[:m], Xe[:m, nx:])
+        th = _take(Ss, wv)
+        for k in range(m, n):
+            wv = window(Sn[k - m:k], Xe[k - m:k, nx:])
+            nxt, _ = step(th, _take(Su, wv))
+            if nxt is None:
+                return None, tags, 'rejected:a true intermediate leaves the floating-point range'
+            th = nxt
+            Sn[k] = _take(Sr, th)
+        expected_nr[l] = Sn
+    if case['form'] == 1:
+        # single-matrix form: only the first min_samples_ state rows of an episode are initial conditions; the later
+        # state rows are (edge-valued) filler that must not matter
+        X0, U = X, None
+    else:
+        X0 = st.ref_combine([(l, Xe[:m, :nx]) for l, Xe in eps_in.items()], e)
+        U = st.ref_combine([(l, Xe[:, nx:]) for l, Xe in eps_in.items()], e)
+    lvl = logging.root.manager.disable
+    logging.disable(logging.CRITICAL)
+    try:
+        with warnings.catch_warnings():
+            warnings.simplefilter('ignore')
+            outs = {}
+            for name, kw in (('relift', dict(relift_state=True)), ('norelift', dict(relift_state=False)),
+                             ('lifted', dict(relift_state=False, return_lifted=True))):
+                try:
+                    outs[name] = np.array(kp.predict_trajectory(X0, U, return_input=True, episode_feature=call, **kw), dtype=float)
+                except Exception as ex:
+                    return (f'predict_trajectory({kw}) raised {type(ex).__name__}: {ex} on finite edge-valued initial conditions / '
+                            f'inputs whose iterated one-step prediction is finite at every step'), dict(tags, relift=kw['relift_state']), 'checked'
+    finally:
+        logging.disable(lvl)
+    for name, exp in (('relift', expected), ('norelift', expected_nr)):
+        t = dict(tags, relift=name == 'relift')
+        eps_p = st.episodes(outs[name], e)
+        if outs[name].shape[1] != ec + nx + nu or sorted(eps_p) != sorted(eps_in):
+            return f'{name}: output has shape {outs[name].shape} / episodes {sorted(eps_p)}', t, 'checked'
+        for l, Xe in eps_in.items():
+            P = eps_p[l]
+            what = f'{name}, episode {l} ({case["mode"]} values, min_samples_={m})'
+            if P.shape[0] != Xe.shape[0]:
+                return f'{what}: {Xe.shape[0]} input samples, {P.shape[0]} predicted rows', t, 'checked'
+            if not _bits_equal(P[:m, :nx], Xe[:m, :nx]):
+                return (f'{what}: initial conditions not reproduced verbatim: supplied {Xe[:m, :nx].tolist()}, returned '
+                        f'{P[:m, :nx].tolist()}'), t, 'checked'
+            if not _bits_equal(P[:, nx:], Xe[:, nx:]):
+                return f'{what}: inputs not passed through unchanged', t, 'checked'
+            if not np.all(np.isfinite(P)):
+                bad = int(np.argmax(~np.all(np.isfinite(P), axis=1)))
+                return (f'{what}: predicted state is not finite from row {bad} on, but the iterated one-step prediction '
+                        f'A theta + B upsilon is finite at every step (largest magnitude {np.max(np.abs(exp[l])):.3g})'), t, 'checked'
+            if name == 'relift':
+                # k-th state = one-step prediction from the previously PREDICTED states and the true inputs
+                for k in range(m, Xe.shape[0]):
+                    wv = window(P[k - m:k, :nx], Xe[k - m:k, nx:])
+                    nxt, tol = step(_take(Ss, wv), _take(Su, wv))
+                    if nxt is None:
+                        return f'{what}: predicted state {k - 1} is beyond every supplied magnitude', t, 'checked'
+                    if np.any(np.abs(_take(Sr, nxt) - P[k, :nx]) > tol[Sr]):
+                        return (f'{what}: predicted state {k} = {P[k, :nx].tolist()} is not the one-step prediction '
+                                f'{_take(Sr, nxt).tolist()} computed from states {k - m}..{k - 1} and coef_'), t, 'checked'
+            # and the whole trajectory is the one iterated here from the initial conditions (the map is a contraction in
+            # the maximum norm of the scaled coordinates, so rounding differences do not grow)
+            bound = 1e-9 * max(np.max(np.abs(Xe[:m, :nx] / sc[:nx]), initial=0.0), np.max(np.abs(Xe[:, nx:] / sc[nx:]), initial=0.0))
+            err = np.abs(P[:, :nx] - exp[l]) / sc[:nx]
+            if np.any(err > bound + tiny / np.min(sc)):
+                k = int(np.argmax(np.any(err > bound + tiny / np.min(sc), axis=1)))
+                return (f'{what}: predicted state {k} = {P[k, :nx].tolist()} differs from the iterated one-step prediction '
+                        f'{exp[l][k].tolist()}'), t, 'checked'
+    # without re-lifting: theta[0] is the lifted initial window, theta[k+1] = A theta[k] + B upsilon[k], states are the
+    # retraction of theta, lifted inputs are the lifting of the supplied inputs
+    t = dict(tags, relift=False)
+    eps_L = st.episodes(outs['lifted'], e)
+    eps_n = st.episodes(outs['norelift'], e)
+    for l, Xe in eps_in.items():
+        what = f'no re-lifting, episode {l} ({case["mode"]} values, min_samples_={m})'
+        Le = eps_L.get(l)
+        if Le is None or Le.shape != (Xe.shape[0] - m + 1, pth + pup):
+            return f'{what}: lifted output has shape {None if Le is None else Le.shape}, expected {(Xe.shape[0] - m + 1, pth + pup)}', t, 'checked'
+        if not np.all(np.isfinite(Le)):
+            return f'{what}: lifted trajectory is not finite, but A theta + B upsilon is finite at every step', t, 'checked'
+        Th, Up = Le[:, :pth], Le[:, pth:]
+        Pn = eps_n[l]
+        wv = window(Xe[:m, :nx], Xe[:m, nx:])
+        if not np.array_equal(Th[0], _take(Ss, wv)):
+            return f'{what}: theta[0] is not the lifted initial window', t, 'checked'
+        for k in range(Th.shape[0]):
+            wv = window(Pn[k:k + m, :nx], Xe[k:k + m, nx:])
+            if pup and not np.array_equal(Up[k], _take(Su, wv)):
+                return f'{what}: lifted input row {k} is not the lifting of the supplied inputs', t, 'checked'
+            if k and not np.array_equal(_take(Sr, Th[k]), Pn[k + m - 1, :nx]):
+                return f'{what}: predicted state {k + m - 1} is not the retraction of theta[{k}]', t, 'checked'
+            if k + 1 < Th.shape[0]:
+                nxt, tol = step(Th[k], Up[k])
+                if nxt is None or np.any(np.abs(nxt - Th[k + 1]) > tol):
+                    return (f'{what}: lifted trajectory violates theta[k+1] = A theta[k] + B upsilon[k] at k={k}: '
+                            f'theta[k+1] = {Th[k + 1].tolist()}, A theta[k] + B upsilon[k] = {None if nxt is None else nxt.tolist()}'), t, 'checked'
+    return None, tags, 'checked'
+
+
+def edge_value_probe(case):
+    try:
+        return edge_value_check(case)
+    except Exception as ex:
+        return (f'edge-valued call raised {type(ex).__name__}: {ex}', {'probe': 'edge-values', 'mode': case.get('mode'), 'raised': True},
+                'checked')
+
+
 def oracle(c, rng):
     try:
         return _oracle(c, rng)
@@ -533,11 +811,18 @@ def run(ctx):
                 'with/without episode feature; call flag None/True/False; both call forms; relift on/off; all '
                 'return_lifted x return_input shapes; cases whose values leave the exactly representable range are '
                 'rejected; a malformed stream (wrong IC length, short inputs) compares error behaviour; scripted divergence '
-                '(chosen episodes diverge at a chosen loop iteration): NaN pattern, row counts, prefix and locality vs the loop skeleton')
+                '(chosen episodes diverge at a chosen loop iteration): NaN pattern, row counts, prefix and locality vs the loop skeleton; '
+                'numerical edge values on selection liftings (none, delays, delay chains, split pipelines of delays): initial '
+                'conditions / inputs of 1e140..1e300 (squares overflow, values do not), subnormal / tiny values, signed zeros, a '
+                'palette mixing all of them, Koopman matrices rescaled by diag(1e-150..1e150); absolute row sums of the '
+                '(unscaled) matrix <= 0.9 so every true intermediate stays finite')
     ctx.explanation = ('theorems C07_* about the executable model of predict / predict_trajectory; correspondence: '
                        'the whole output matrix of predict_trajectory and predict compared exactly with the model; '
                        'oracle: iterated predict() vs predict_trajectory on float data with contractive Koopman '
-                       'matrices, IC / input pass-through / row count / episode independence / lifted recursion')
+                       'matrices, IC / input pass-through / row count / episode independence / lifted recursion; edge-value oracle: '
+                       'the lifting structure is measured at ordinary magnitudes, A theta + B upsilon is computed here in float64 '
+                       'from coef_, and with / without re-lifting the output must be finite, reproduce IC and inputs bit for bit '
+                       '(signed zeros, subnormals), satisfy the one-step recursion and equal the trajectory iterated here')
     ctx.proof_obligations('Properties.C07', THEOREMS)
     drv = ctx.get_driver()
     n = ctx.n(150, 1800)
@@ -674,6 +959,15 @@ def run(ctx):
         if w:
             ctx.fail(w, case, tags)
             break
+    for _ in range(ctx.n(60, 700)):
+        case = edge_value_case(ctx.rng)
+        w, tags, status = edge_value_probe(case)
+        ctx.count('edge values:' + (status if status != 'checked' else f"{case['mode']}/{case['kind']}"))
+        if status == 'checked':
+            ctx.record_case({k: v for k, v in case.items() if k not in ('X', 'Xfit')}, True)
+        if w:
+            ctx.fail(w, case, tags)
+            break
     for relift in (True, False):
         for _ in range(ctx.n(3, 20)):
             w, case, tags = divergence_probe(ctx.rng, relift)
@@ -699,6 +993,10 @@ def run(ctx):
 def replay(ctx, path):
     obj = json.load(open(path))
     case = obj.get('case') or (obj.get('first_disagreement') or {}).get('case')
+    if isinstance(case, dict) and case.get('probe') == 'edge-values':
+        w, tags, status = edge_value_probe(case)
+        print('edge-value oracle:', w, tags, status)
+        return 1 if w else 0
     w, tags = oracle(case, ctx.rng)
     print('oracle:', w, tags)
     return 1 if w else 0
